@@ -120,6 +120,26 @@ def fam_C06(tier, seed):
             else:
                 b.con(cls, tasks=ts, interval=[], length=[3], kind="lax")
             ps.append(b.done())
+    # an optional task and an unselected worker both live "in the past": strict sorts must not confuse them
+    for cls, first in itertools.product(("ResourceTasksDistance", "ResourceNonDelay", "idle"), (0, 1, 2)):
+        b = PB(4, tag="opt-past-points-" + cls)
+        names = ["A", "B", "C"]
+        order = names[first:] + names[:first]
+        t = {}
+        for n in order:
+            t[n] = b.task(n, "F", dur=1, optional=(n == "A"))
+        w1, w2 = b.worker("W1"), b.worker("W2")
+        s_ = b.select("S", [w1, w2])
+        b.require(t["A"], worker=w1)
+        b.require(t["B"], select=s_)
+        b.require(t["C"], worker=w1)
+        if cls == "ResourceTasksDistance":
+            b.con(cls, res=res_worker(w1), distance=1, mode="min", has_intervals=False, intervals=[])
+        elif cls == "ResourceNonDelay":
+            b.con(cls, res=res_worker(w1))
+        else:
+            b.ind("IndicatorResourceIdle", res=res_worker(w1))
+        ps.append(b.done())
     # optional tasks with resource constraints
     for cls in ("ResourceUnavailable", "WorkLoad", "ResourceNonDelay", "ResourceTasksDistance"):
         b = PB(4, tag="opt-" + cls)
